@@ -11,6 +11,9 @@ import EinoV.Model.C05
 import EinoV.Model.GraphBuild
 import EinoV.Proofs.C05
 import EinoV.Proofs.C05Resume
+import EinoV.Model.C05Nested
+import EinoV.Proofs.C06Nested
+import EinoV.Proofs.C05NestedExamples
 import EinoV.Gen.FactsC06
 import EinoV.Expected.C06
 
@@ -176,5 +179,112 @@ theorem before_ignored_for_start_successor :
   have := h.1 0 [("a", false)] (by rw [hfirst]; rfl) ("a", false) (by simp) (by decide)
   obtain ⟨_, info, hinfo, _⟩ := this
   cases hinfo
+
+/-! ## Reported exactly, at every nesting level
+
+  Model of nesting: EinoV/Model/C05Nested.lean (`subBody`: the body of a node that is a compiled graph;
+  `NR d`: graphs nested `d` deep; `NR.toI`: the compiled runner; a `SubCodec` packs the nested run's
+  checkpoint and info into the payload the parent stores under `SubGraphs[key]`).  Lemmas:
+  Proofs/C06Nested.lean. -/
+section Nested
+open EinoV.Interrupt
+
+/-- **interrupt_info_sound** (one level, every runner, node body and handler).  Whatever interrupt a
+    call returns, every name in its info is justified: BeforeNodes are interrupt-before nodes that are
+    pending tasks of the returned checkpoint; AfterNodes are interrupt-after nodes; RerunNodes are
+    nodes whose body asked for a rerun; every SubGraphs entry is a payload some execution of that
+    node's body reported; the info is never empty; with a rerun / sub-graph interrupt BeforeNodes is
+    empty; the checkpoint stores the same SubGraphs.  For every completion order that invents no task. -/
+theorem interrupt_info_sound (ops : ValOps V) (cfg : Cfg) (r : IRunner V S X) (sched : ISched V S X) (hs : SchedSub sched)
+    (isSub hasID : Bool) (inp : V ⊕ Checkpoint V S X) (cp : Checkpoint V S X) (info : Info S X)
+    (h : (runI ops cfg r sched isSub hasID inp).res = .interrupted cp info) :
+    (∀ k ∈ info.before, k ∈ r.intBefore ∧ k ∈ cp.inputs.map (·.1)) ∧
+    (∀ k ∈ info.after, k ∈ r.intAfter) ∧
+    (∀ k ∈ info.rerun, ∃ n v s x s', r.inode? k = some n ∧ (n.body v s x).res = .rerun s') ∧
+    (∀ kp ∈ info.subs, ∃ n v s x s', r.inode? kp.1 = some n ∧ (n.body v s x).res = .subInt kp.2 s') ∧
+    (info.before ≠ [] ∨ info.after ≠ [] ∨ info.rerun ≠ [] ∨ info.subs ≠ []) ∧
+    ((info.subs ≠ [] ∨ info.rerun ≠ []) → info.before = []) ∧
+    cp.subs = info.subs :=
+  runI_info_sound ops cfg r sched hs isSub hasID inp cp info h
+
+/-- **interrupt_info_complete** (the superstep that ends in the interrupt).  Every node whose body asked
+    for a rerun in that superstep is in RerunNodes, every node whose body reported a nested interrupt
+    is in SubGraphs with exactly that payload; and in that case the checkpoint restores exactly
+    RerunNodes ∪ SubGraphs (zero inputs; SkipPreHandler exactly the SubGraphs keys): no node that
+    completed in the superstep is started again by the resume.  (Interrupt-after nodes: `after_reported`.)
+    For every completion order that loses no task. -/
+theorem interrupt_info_complete (ops : ValOps V) (r : IRunner V S X) (sched : ISched V S X) (hk : SchedKeeps sched)
+    (ls : LoopSt V S X) (cp : Checkpoint V S X) (info : Info S X) (h : (stepI ops r sched ls).2 = .intr cp info) :
+    (∀ k s, (k, BodyRes.rerun s) ∈ (runBodies r (runPres r ls.tasks ls.st).1 (runPres r ls.tasks ls.st).2).1 →
+      k ∈ info.rerun) ∧
+    (∀ k p s, (k, BodyRes.subInt p s) ∈ (runBodies r (runPres r ls.tasks ls.st).1 (runPres r ls.tasks ls.st).2).1 →
+      (k, p) ∈ info.subs) ∧
+    ((info.subs ≠ [] ∨ info.rerun ≠ []) →
+      (∀ k, k ∈ cp.inputs.map (·.1) ↔ (k ∈ info.rerun ∨ k ∈ info.subs.map (·.1))) ∧
+      (∀ q ∈ cp.inputs, q.2 = ops.zero) ∧ cp.skipPre = info.subs.map (·.1)) :=
+  stepI_sr_complete ops r sched hk ls cp info h
+
+/-- **nested_interrupt_reported** (every nesting depth).  For a graph nested `d` deep, whatever interrupt
+    a call returns is reported exactly at every level (`NR.Reported`): at each level BeforeNodes /
+    AfterNodes are configured interrupt points of that level (BeforeNodes being pending tasks of that
+    level's checkpoint), there are no RerunNodes, the info names something, the checkpoint's SubGraphs
+    are the info's SubGraphs, and every SubGraphs entry sits under the key of a graph node of that
+    level and is the (checkpoint, info) pair the nested run of that node returned — itself reported
+    exactly, down to the level where the interrupt is a plain before/after interrupt. -/
+theorem nested_interrupt_reported (ops : ValOps V) (cfg : Cfg) (cd : SubCodec V S X)
+    (hcd : ∀ cp info, cd.cp (cd.pack cp info) = cp) (hci : ∀ cp info, cd.info (cd.pack cp info) = info)
+    (d : Nat) (nr : NR V S X d) (sched : ISched V S X) (hs : SchedSub sched) (hss : NR.SubScheds d nr)
+    (isSub hasID : Bool) (inp : V ⊕ Checkpoint V S X) (cp : Checkpoint V S X) (info : Info S X)
+    (h : (runI ops cfg (NR.toI ops cfg cd d nr) sched isSub hasID inp).res = .interrupted cp info) :
+    NR.Reported cd d nr cp info :=
+  NR.reported ops cfg cd hcd hci d nr sched hs hss isSub hasID inp cp info h
+
+/-- **nested_payload_is_child_result.**  In a compiled level, a nested interrupt is reported only by a
+    graph node, and the payload stored under its key packs the checkpoint and info the nested run
+    returned in that very execution (so `interrupt_reported` / `store_iff` apply to the nested run:
+    it returned that info as its error, and — being a sub-graph — wrote no store). -/
+theorem nested_payload_is_child_result {C : Type} (ops : ValOps V) (cfg : Cfg) (cd : SubCodec V S X)
+    (toC : C → IRunner V S X) (l : NLevel V S X C) (k : Key) (n : INode V S X) (v : V) (s : S) (x : Option X)
+    (p : X) (s' : S) (hn : (l.toIWith ops cfg cd toC).inode? k = some n) (hb : (n.body v s x).res = .subInt p s') :
+    ∃ c sc, l.child? k = some c ∧ (∃ n', l.node? k = some n' ∧ n'.body = .graph c sc) ∧
+      ∃ cpc infoc, (runI ops cfg (toC c) sc true false (subInp cd v x)).res = .interrupted cpc infoc ∧
+        p = cd.pack cpc infoc :=
+  NLevel.subInt_from_child ops cfg cd toC l k n v s x p s' hn hb
+
+/-! ### non-vacuity: a nested interrupt and what is reported for it -/
+
+/- The runners are those of Proofs/C05NestedExamples.lean: `inner` = start → a → c → end with interrupt-after
+   {a}, interrupt-before {c}; `outer` = start → g, start → p; g, p → j → end where `g` is the graph `inner`,
+   interrupt-before {j}. -/
+open EinoV.NestedEx (Pay payCodec inner outer outer_subScheds)
+
+/-- per call that returns an interrupt: BeforeNodes, AfterNodes, the keys the checkpoint restores, the
+    SubGraphs keys, and — concatenated over the SubGraphs entries — the nested BeforeNodes, AfterNodes and
+    restored keys -/
+def shape (o : Out Nat Nat Pay) : List (List Key) :=
+  match o.res with
+  | .interrupted cp info =>
+    [info.before, info.after, cp.inputs.map (·.1), info.subs.map (·.1),
+     info.subs.flatMap (fun kp => (Pay.info kp.2).before), info.subs.flatMap (fun kp => (Pay.info kp.2).after),
+     info.subs.flatMap (fun kp => (Pay.cp kp.2).inputs.map (·.1))]
+  | _ => []
+
+/-- the first call interrupts inside `g` (after `a`, before `c`): reported under SubGraphs["g"], the
+    parent restores exactly `g`; the second call interrupts before `j` at the outer level; the third
+    completes -/
+example : (resumeUntilDone natOps fixedCfg (NR.toI natOps fixedCfg payCodec 1 outer) ISched.id 10 1).map shape =
+    [[[], [], ["g"], ["g"], ["c"], ["a"], ["c"]], [["j"], [], ["j"], [], [], [], []], []] := by decide
+example : SchedSub (ISched.id (V := Nat) (S := Nat) (X := Pay)) := fun _ _ h => h
+example : payCodec.cp (payCodec.pack cp info) = cp ∧ payCodec.info (payCodec.pack cp info) = info := ⟨rfl, rfl⟩
+
+/-- all hypotheses of `nested_interrupt_reported` at once: whatever interrupt a call on `outer` returns is
+    reported exactly at both levels -/
+example (inp : Nat ⊕ Checkpoint Nat Nat Pay) (cp : Checkpoint Nat Nat Pay) (info : Info Nat Pay)
+    (h : (runI natOps fixedCfg (NR.toI natOps fixedCfg payCodec 1 outer) ISched.id false true inp).res = .interrupted cp info) :
+    NR.Reported payCodec 1 outer cp info :=
+  nested_interrupt_reported natOps fixedCfg payCodec (fun _ _ => rfl) (fun _ _ => rfl) 1 outer ISched.id
+    (fun _ _ h => h) outer_subScheds false true inp cp info h
+
+end Nested
 
 end EinoV.C06
